@@ -33,6 +33,45 @@ def post_validate_impl(work, st):
     return [("validator", k, "Validate.check_alloc / SsaWf.ssa_wf rejects the implementation's tapes") for k in bad]
 
 
+def _tape_of(sec, key):
+    """'s1 <tape> cc k oc j' -> (tape string, cc)"""
+    body = sec[len(key) + 1:]
+    tape, rest = body.split(" cc ")
+    return tape, int(rest.split()[0])
+
+
+def post_validate_simplify(work, st):
+    """Runs the two kernel-verified validators on what the implementation printed:
+    Validate.check_alloc on every (SSA tape, register tape) pair and
+    SimplifyValidate.check_simplify on every (parent, trace, child) triple."""
+    lines = open(os.path.join(work, "impl.txt")).read().splitlines()
+    reqs, owners = [], []
+    for k, ln in enumerate(lines):
+        s = split_sections(ln)
+        pairs = [("p", "pr"), ("s1", "r1"), ("s2", "r2")]
+        for a, b in pairs:
+            if a in s and b in s and " cc " in s[a]:
+                tape, _ = _tape_of(s[a], a)
+                reg = s[b].split(" ", 2)[2]
+                reqs.append(f"val {tape} {reg}"); owners.append((k, "val 1 wf 1", f"{a}/{b}"))
+        for parent, tr, child in [("p", "tr", "s1"), ("s1", "tr2", "s2")]:
+            if parent in s and tr in s and child in s and " cc " in s[parent] and " cc " in s[child]:
+                pt, cc = _tape_of(s[parent], parent)
+                ct, _ = _tape_of(s[child], child)
+                t = s[tr][len(tr) + 1:]
+                if t.strip() == "none":
+                    t = f"{cc} " + " ".join(["3"] * cc)
+                reqs.append(f"sval {pt} {t.strip()} {ct}"); owners.append((k, "sval 1 wf 1", f"{parent}->{child}"))
+    vp = os.path.join(work, "val_cases.txt")
+    open(vp, "w").write("\n".join(reqs) + ("\n" if reqs else ""))
+    run_runner(vp, os.path.join(work, "val_out.txt"))
+    outs = open(os.path.join(work, "val_out.txt")).read().splitlines()
+    bad = [(owners[j], o) for j, o in enumerate(outs) if o.strip() != owners[j][1]]
+    st["validator_requests"] = len(outs)
+    st["validator_rejects"] = len(bad)
+    return [("validator", k, f"verified validator rejects the implementation's {what}: {o.strip()}") for (k, _, what), o in bad]
+
+
 # ------------------------------------------------------------------ generic flow
 def run_property(prop, sp, tier, seed, replay):
     t0 = time.time()
@@ -203,4 +242,16 @@ spec("C01",
      classify=classify_default,
      assumptions=["memory slot indices stay below u32::MAX (UNASSIGNED sentinel is modelled as None)",
                   "points where a NaN reaches rand/mix are skipped in the model comparison (NaN payload bits are not modelled); they stay in the property oracle"],
+     )
+
+spec("C04",
+     cmd="c04", count=dict(quick=500, thorough=10000),
+     args=dict(quick=["jit"], thorough=["jit"]),
+     vo_targets=["props/C04.vo"],
+     post=[post_validate_simplify],
+     level="proof",
+     rule="random choice-heavy DAGs (1-80 ops, 1-4 outputs, min/max/and/or with shared operands and immediates), backend in {interpreter at budgets (N,M) from 15 pairs, x86_64 JIT}, trace from the point or the interval tracing evaluator, child simplified again with its own trace; distinct_nontrivial = distinct parent SSA tapes",
+     classify=classify_default,
+     assumptions=["JIT interval traces are judged against the model's (entry equal or the more conservative Both), JIT interval values are not compared with the model",
+                  "value equality on the traced box is sampled by the oracle at box corners and interior points (the theorem covers all points where the trace is valid)"],
      )
